@@ -4,6 +4,7 @@
 //! In-place forms are cross-checked against their allocating forms inside the harness.
 #[path = "c09/tsrc.rs"]
 mod tsrc;
+mod over_views;
 
 use crate::guarded;
 use crate::sx::*;
@@ -75,6 +76,7 @@ pub fn run(args: &[Sx]) -> Sx {
                     Err(e) => err(shape_sx(&e.shape())),
                 }
             }
+            (30, _) => over_views::run(args),
             (21, 4) => {
                 let (shape, data, nans) = (args[1].pairs_usize()?, args[2].i64s()?, args[3].usizes()?);
                 with_d!(shape.len(), nan_eq(&shape, &data, &nans))
